@@ -89,6 +89,12 @@ def run(res, replay=None):
         exp_params = ot['params'] if ot['loss'] < bf['loss'] else bf['params']
         if mg['loss'] != exp_loss or mg['params'] != exp_params or mg['loss_runs'] != bf['loss_runs'] + ot['loss_runs']:
             viol('add_run does not keep the lower loss / concatenate the losses', merged=mg, self=bf, other=ot)
+        ib = r.get('interleaved_boot')
+        if ib is not None:
+            res.count(key + ':interleaved_boot')
+            if ib['rows_added'] != 3 or ib['first_column'] != [1.0, 2.0, 3.0]:
+                res.violation('bootstraps and runs interleaved: the table does not hold exactly one row per add_bootstrap in the order they were added',
+                              {'case': c, 'observed': ib, 'expected_first_column': [1.0, 2.0, 3.0]})
         pfm = r['perfect']
         for tag, mgd, a_, b_ in (('perfect fit + worse run', pfm['merged'], pfm['before'], pfm['other']),
                                  ('worse run + perfect fit', pfm['merged_reverse'], pfm['other'], pfm['before'])):
